@@ -24,7 +24,7 @@ template <class T> static void bfs_unit(int N, int lvl, int wlimit, bool inpl = 
   Unit u; u.name = name; u.total = 1; u.maxcrash = 1;
   u.f = [=](long long) { Bfs<T> b; b.N = N; b.lvl = lvl; b.wlimit = wlimit; b.inpl = inpl; b.wmax = wmax; b.uname = name; b.run(); };
   u.fmt = [=](long long) { return g_bfs_hist ? "#" + g_bfs_hist() + " :: aborted inside the last operation of this history of " + std::to_string(N) + " " + Tr<T>::name() + " objects" : std::string("search over ") + std::to_string(N) + " " + Tr<T>::name() + " objects"; };
-  u.replay_extra = [=](const std::string& hist) { Bfs<T> b; b.N = N; b.lvl = lvl; b.wlimit = wlimit; b.inpl = inpl; b.wmax = wmax; b.uname = name; std::string k = b.replay(hist, true); printf("# final state %s\n", k.c_str()); };
+  u.replay_extra = [=](const std::string& hist) { Bfs<T> b; b.N = N; b.lvl = lvl; b.wlimit = wlimit; b.inpl = inpl; b.wmax = wmax; b.uname = name; b.replay(hist, true); printf("# final state %s\n", b.last_shown.c_str()); };
   run_unit(u);
 }
 #endif
